@@ -1,8 +1,8 @@
 SPECIFICATION Spec
 CONSTANTS
-  N = 3
-  T = 3
-  Builder = "new"
+  N = 5
+  T = 4
+  Builder = "key"
   ExcludeTouch = FALSE
   U = 1
   EmitOn = FALSE
@@ -12,4 +12,5 @@ INVARIANT TotalOrder
 INVARIANT Sortable
 INVARIANT LIFO
 INVARIANT TreeOK
+INVARIANT AdjacentLess
 CHECK_DEADLOCK FALSE
